@@ -331,10 +331,15 @@ func c07build(c GCase) *c07graph {
 	}
 	// parents: which expressions are operands of a RightTrim
 	rtrimOperand := map[int]bool{}
+	// half of the grammars are built with one parser value per distinct sub-expression (a shared value is a RightTrim
+	// operand if any of its occurrences is)
+	shareExprs := run.Hash(c.G.String())%4 >= 2
+	rtrimOperandStr := map[string]bool{}
 	for _, b := range c.G.NTs {
 		gram.Walk(b, func(e *gram.Expr) {
 			if e.Op == gram.OpRTrim {
 				rtrimOperand[e.Kids[0].ID] = true
+				rtrimOperandStr[e.Kids[0].String()] = true
 			}
 		})
 	}
@@ -342,6 +347,7 @@ func c07build(c GCase) *c07graph {
 		Inside:      gd.Inside,
 		MemoExpr:    c.MemoExpr,
 		ShareLeaves: true,
+		ShareExprs:  shareExprs,
 		// every sequence carries the library's own list interpreter: the trees are evaluated (twice) after the parse, and
 		// evaluation must not change what the parsers returned either
 		Interp: interpreter.Array(),
@@ -362,7 +368,7 @@ func c07build(c GCase) *c07graph {
 		},
 		Around: func(e *gram.Expr, p parsley.Parser) parsley.Parser {
 			label := fmt.Sprintf("#%d %s", e.ID, e.String())
-			isOperand := rtrimOperand[e.ID]
+			isOperand := rtrimOperand[e.ID] || (shareExprs && rtrimOperandStr[e.String()])
 			return parser.Func(func(ctx *parsley.Context, lrc data.IntMap, pos parsley.Pos) (parsley.Node, data.IntSet, parsley.Error) {
 				gd.Tick(ctx)
 				n, cp, err := p.Parse(ctx, lrc, pos)
@@ -413,6 +419,7 @@ func c07case(c GCase, a *run.Acc) {
 	} else {
 		gr = c07build(c)
 		c07cache = gr
+		a.Count("sub-expression occurrences served by a parser value built for an earlier occurrence", int64(gr.b.SharedUses))
 	}
 	gr.gd.Reset(env.Base)
 	gr.m, gr.base = m, env.Base
